@@ -37,15 +37,16 @@ EPS = np.finfo(float).eps
 
 def plan(tier, seed):
     if tier == "quick":
-        kinds = {"batch": 900, "droplet": 6000}
+        kinds = {"batch": 900, "droplet": 6000, "collection": 900}
         per = 450
     else:
-        kinds = {"batch": 40000, "droplet": 600000}
+        kinds = {"batch": 40000, "droplet": 600000, "collection": 60000}
         per = 20000
     nojit = common.shards({"batch-nojit": max(60, kinds["batch"] // 10)}, per_shard=per // 3, tier=tier, seed=seed,
                           extra={"env": {"NUMBA_DISABLE_JIT": "1", "NUMBA_BOUNDSCHECK": "1"}})
     return common.shards({"batch": kinds["batch"]}, per_shard=per // 3, tier=tier, seed=seed) + nojit + \
-        common.shards({"droplet": kinds["droplet"]}, per_shard=per * 2, tier=tier, seed=seed)
+        common.shards({"droplet": kinds["droplet"]}, per_shard=per * 2, tier=tier, seed=seed) + \
+        common.shards({"collection": kinds["collection"]}, per_shard=per, tier=tier, seed=seed)
 
 
 def V(r, dim):
@@ -68,6 +69,25 @@ def gen(rng, kind, tier):
         if n and rng.random() < 0.3:
             vals[int(rng.integers(n))] = float(rng.choice([0.0, 1.0]))
         return {"values": vals, "dim": int(rng.integers(1, 4))}
+    if kind == "collection":
+        dim = int(rng.integers(1, 4))
+        classes = ["SphericalDroplet", "DiffuseDroplet"] + {1: [], 2: ["PerturbedDroplet2D"] * 2,
+                                                             3: ["PerturbedDroplet3D", "PerturbedDroplet3DAxisSym"]}[dim]
+        cls = str(rng.choice(classes))
+        n = int(rng.choice([1, 2, 3, 6]))
+        scale = float(10 ** rng.uniform(-2, 2))
+        ms = []
+        for _ in range(n):
+            R = 0.0 if rng.random() < 0.15 else float(scale * 10 ** rng.uniform(-1, 1))
+            pos = [float(x) for x in rng.normal(0, 5 * scale, dim)]
+            if cls == "PerturbedDroplet3DAxisSym":
+                pos[0] = pos[1] = 0.0
+            amps = None
+            if cls.startswith("Perturbed"):
+                amps = [float(x) for x in rng.uniform(-0.25, 0.25, int(rng.integers(1, 5)))]
+            ms.append({"cls": cls, "pos": pos, "radius": R, "width": None if cls == "SphericalDroplet" else 0.3 * scale,
+                       "amps": amps})
+        return {"members": ms, "new_volume": float(10 ** rng.uniform(-6, 6))}
     dim = int(rng.integers(1, 4))
     cls = str(rng.choice(["SphericalDroplet", "DiffuseDroplet"]))
     if rng.random() < 0.12:
@@ -290,7 +310,73 @@ def run_perturbed_setter(case, rec):
         rec.count("radius_zero_before_setting_volume")
 
 
+def run_collection(case, rec):
+    """What collections report about their droplets follows from the droplets: the bounding box of an emulsion is the
+    union of the boxes [position - radius, position + radius] of all its droplets (also vanished ones), its total
+    volume the sum of their volumes, and a track reports each droplet's own radius and volume.  A perturbed 3-D
+    droplet whose volume can be set (it cannot in the library as it stands) must read the set value back."""
+    import droplets
+    from .c03 import make_droplet
+
+    ms = case["members"]
+    dim = len(ms[0]["pos"])
+    ds = [make_droplet(m) for m in ms]
+    label = str(case)
+    own = common.monitored(rec, "droplet.volume", lambda: [float(d.volume) for d in ds])
+    if not own.ok and isinstance(own.exc, NotImplementedError):
+        rec.count("droplet_volume_not_implemented")  # axisymmetric perturbed droplets
+        vols = None
+    elif not rec.check(own.ok, "no-exception", f"droplet.volume raised {common.exc_text(own.exc) if own.exc else ''}; {label}"):
+        return
+    else:
+        vols = np.array(own.result)
+    if not ms[0]["cls"].startswith("Perturbed"):
+        em = droplets.Emulsion([d.copy() for d in ds])
+        c = common.monitored(rec, "emulsion-properties", lambda: (np.asarray(em.bbox.bounds, float), float(em.total_droplet_volume)))
+        if rec.check(c.ok, "no-exception", f"Emulsion.bbox/total_droplet_volume raised {common.exc_text(c.exc) if c.exc else ''}; {label}"):
+            P = np.array([m["pos"] for m in ms], float)
+            Rr = np.array([m["radius"] for m in ms], float)
+            exp = np.stack([(P - Rr[:, None]).min(axis=0), (P + Rr[:, None]).max(axis=0)], axis=1)
+            tol = 8 * EPS * (np.abs(P).max() + Rr.max())
+            rec.check(c.result[0].shape == exp.shape and bool(np.all(np.abs(c.result[0] - exp) <= tol)), "droplet-properties",
+                      f"Emulsion.bbox {c.result[0].tolist()} is not the union {exp.tolist()} of its droplets' boxes; {label}")
+            ev = float(sum(float(V(m["radius"], dim)) for m in ms))
+            rec.check(abs(c.result[1] - ev) <= 1e-13 * len(ms) * ev, "droplet-properties",
+                      f"Emulsion.total_droplet_volume {c.result[1]!r} != sum of the droplets' volumes {ev!r}; {label}")
+    tr = droplets.DropletTrack([d.copy() for d in ds], times=[float(k) for k in range(len(ds))])
+    c = common.monitored(rec, "track-properties", lambda: (np.asarray(tr.get_radii(), float),
+                                                          np.asarray(tr.get_volumes(), float) if vols is not None else None))
+    if rec.check(c.ok, "no-exception", f"DropletTrack.get_radii/get_volumes raised {common.exc_text(c.exc) if c.exc else ''}; {label}"):
+        rr, vv = c.result
+        rec.check(rr.shape == (len(ds),) and bool(np.all(rr == np.array([m["radius"] for m in ms]))), "droplet-properties",
+                  f"DropletTrack.get_radii {rr.tolist()} differs from the droplets' radii; {label}")
+        rec.check(vols is None or vv.shape == (len(ds),) and bool(np.all(np.abs(vv - vols) <= 1e-14 * np.abs(vols))), "droplet-properties",
+                  f"DropletTrack.get_volumes {vv.tolist()} differs from the droplets' own volumes {vols.tolist()}; {label}" if vols is not None else "")
+    if ms[0]["cls"] in ("PerturbedDroplet3D", "PerturbedDroplet3DAxisSym") and ms[0]["radius"] > 0:
+        d = ds[0].copy()
+        nv = case["new_volume"]
+
+        def setv():
+            d.volume = nv
+            return float(d.volume)
+
+        c = common.monitored(rec, "volume-setter", setv)
+        if c.ok:
+            rec.check(bool(np.isfinite(c.result)) and abs(c.result - nv) <= 1e-9 * nv, "volume-setter",
+                      f"set volume {nv!r}, read back {c.result!r}; {label}")
+        elif isinstance(c.exc, (NotImplementedError, AttributeError)):
+            rec.count("volume_of_3d_perturbed_droplets_cannot_be_set")
+        else:
+            rec.check(False, "no-exception", f"setting the volume raised {common.exc_text(c.exc)}; {label}")
+    rec.evaluated(nontrivial=len(ms) > 1)
+    rec.count(f"collection_dim:{dim}|{ms[0]['cls']}")
+    if any(m["radius"] == 0 for m in ms) and any(m["radius"] > 0 for m in ms):
+        rec.count("collections_with_vanished_and_finite_droplets")
+
+
 def run(case, rec):
+    if case["kind"] == "collection":
+        return run_collection(case, rec)
     if case["kind"] in ("batch", "batch-nojit"):
         if case["kind"] == "batch-nojit":
             rec.count("batches_with_the_jit_disabled")
